@@ -239,11 +239,48 @@ def eval_echo(case, engine, acc=None):
     probe, _ = make_input(spec)
     probe.__form_init__(type('F', (), {'name': lambda self: 'fa'})())
 
+    ov = {}
+
     def own_valid(t):
-        try:
-            return bool(probe.valid(t))
-        except Exception:
-            return None
+        # the input's own verdict, asked for in import-time state (see prelude below) and remembered
+        if t not in ov:
+            try:
+                ov[t] = bool(probe.valid(t))
+            except Exception:
+                ov[t] = None
+        return ov[t]
+
+    def prelude():
+        """verdicts first, in import-time state; then whatever habutax may remember is wiped, and - if the case has one -
+        another input of the same kind (another pattern, other choices) is given the very same texts in a solve of its own,
+        in this process, before the run that is judged"""
+        core.reset_code_state()
+        for _, t_ in texts:
+            if t_ is not None:
+                own_valid(t_)
+                own_valid(t_.strip())
+        if isinstance(case.get('user'), str) and case['user'] != 'refuse':
+            own_valid(case['user'])
+        core.reset_code_state()
+        pre = case.get('prelude_spec')
+        if pre is None:
+            return
+        pclasses, _ = echo_classes(pre)
+        ppath = os.path.join(simrun.scratch_dir(), 'c11_pre.ini')
+        for _, t_ in texts:
+            if t_ is None:
+                continue
+            crash.write_text(ppath, f'[fa]\nx = {t_}\n')
+            prec = seams.Recorder(budget=200)
+            try:
+                with seams.installed(prec), core.cpu_alarm(10):
+                    hb_solver.Solver(hb_inputs.InputStore(ppath), pclasses, prompt=None).solve(['fa'])
+            except (core.RunTimeout, core.BudgetExceeded):
+                raise
+            except Exception:
+                pass
+        if acc is not None:
+            acc.count('fault:same-text-given-to-another-input-before')
     if case['channel'] == 'file':
         cls, text = texts[0]
         if text is None:
@@ -258,6 +295,10 @@ def eval_echo(case, engine, acc=None):
                 eff = cfgp.get('fa', 'x', raw=True) if cfgp.has_option('fa', 'x') else None
             except configparser.Error:
                 return []          # the generated text does not survive the INI syntax: not a case
+        if eff is not None:
+            core.reset_code_state()
+            own_valid(eff)
+        prelude()
         m = mon.Monitor(supplied=['fa.x'] if eff is not None else [])
         rec = seams.Recorder(budget=200, sched_seed=case['sched'][0], period=case['sched'][1], monitor=m)
         outcome, exc, unmet = None, None, None
@@ -366,6 +407,7 @@ def eval_echo(case, engine, acc=None):
         if i >= len(seq):
             raise KeyboardInterrupt()
         return seq[i]
+    prelude()
     first_valid = next((k for k, t in enumerate(seq) if own_valid(t) is True), None)
     kind, exc, out = simrun.run_cli(['solve', path, '--year', str(synth.SYNTH_YEAR), '--form', 'fa', '--prompt-missing',
                                      '--writeback-input'], stdin=stdin, rec=rec, year_forms={synth.SYNTH_YEAR: classes})
@@ -561,6 +603,12 @@ def make_case(engine, seed):
     specs = SYNTH_SPECS + shipped_specs()
     spec = rng.pick(specs) if rng.chance(0.6) else rng.pick(SYNTH_SPECS)
     classes = texts_for(spec['type'], spec_extra(spec))
+    prelude_spec = None
+    if rng.chance(0.35):
+        same = [sp for sp in specs if sp is not spec and sp['type'] in
+                (('regex', 'ssn', 'str') if spec['type'] in ('regex', 'ssn', 'str') else (spec['type'], spec['type'].replace('_empty', ''), spec['type'] + '_empty'))]
+        if same:
+            prelude_spec = rng.pick(same)
     if engine == 'echo_file':
         if rng.chance(0.05):
             texts = [['absent', None]]
@@ -571,7 +619,7 @@ def make_case(engine, seed):
         if rng.chance(0.4):
             user = 'refuse' if rng.chance(0.5) else rng.pick(classes[0][1])
         return {'spec': spec, 'texts': texts, 'channel': 'file', 'sched': [None, 0], 'user': user,
-                'via': 'cli' if (user is None and rng.chance(0.4)) else 'api'}
+                'via': 'cli' if (user is None and rng.chance(0.4)) else 'api', 'prelude_spec': prelude_spec}
     n = rng.pick([1, 2, 2, 3, 4])
     texts = []
     for _ in range(n):
@@ -580,7 +628,7 @@ def make_case(engine, seed):
     if rng.chance(0.7):
         cls, ts = classes[0]
         texts.append([cls, rng.pick(ts)])
-    return {'spec': spec, 'texts': texts, 'channel': 'prompt', 'sched': [None, 0]}
+    return {'spec': spec, 'texts': texts, 'channel': 'prompt', 'sched': [None, 0], 'prelude_spec': prelude_spec}
 
 
 def run_one(engine, seed, acc, tier):
